@@ -84,6 +84,9 @@ class _Activation:
         self.lib = lib
 
     def __enter__(self):
+        from . import threads as _thr
+        self.real_threading = sys.modules.get("threading")
+        sys.modules["threading"] = _thr.proxy_threading_module()
         self.saved = {k: v for k, v in sys.modules.items() if k == "spake2" or k.startswith("spake2.")}
         for k in self.saved:
             del sys.modules[k]
@@ -96,6 +99,7 @@ class _Activation:
         for k in cur:
             del sys.modules[k]
         sys.modules.update(self.saved)
+        sys.modules["threading"] = self.real_threading
         return False
 
 
@@ -106,6 +110,18 @@ def repo_root():
 def _import_copy(src, trip, eager):
     lib = Lib()
     empty = Lib()
+    # the library sees a proxy `threading` module: locks it creates cooperate with the simulated
+    # thread scheduler instead of blocking the one runnable thread
+    from . import threads as _thr
+    real_threading = sys.modules.get("threading")
+    sys.modules["threading"] = _thr.proxy_threading_module()
+    try:
+        return _import_copy_inner(lib, empty, src, trip, eager)
+    finally:
+        sys.modules["threading"] = real_threading
+
+
+def _import_copy_inner(lib, empty, src, trip, eager):
     with _Activation(empty):          # park whatever copy is registered
         import spake2                                   # noqa
         import spake2.spake2 as sp
